@@ -18,6 +18,11 @@ if os.path.exists(os.path.join(C.COQ, "Oblig", "C01ValidObl.v")):
 if os.path.exists(os.path.join(C.COQ, "Props", "C04ValidText.v")):
     PROP_FILES.append("Props/C04ValidText.v")
     OBLIG_FILES += ["Oblig/C04ValidTextObl.v", "Codec/ReaderSkelFacts.v", "Model/TamperValidFacts.v"]
+# phase 7: the two text-level theorems without the extra hypotheses (list surgery, truncation classes)
+if os.path.exists(os.path.join(C.COQ, "Props", "C04ValidTextFull.v")):
+    PROP_FILES.append("Props/C04ValidTextFull.v")
+    OBLIG_FILES += ["Oblig/C04ValidTextFullObl.v", "Oblig/C04ValidTruncObl.v", "Oblig/C04ValidFullEx.v",
+                    "Model/TamperValidSurgery.v", "Model/TruncValidFacts.v"]
 
 # perturbation kinds of harness/internal/arith/perturb.go that change exactly one protected field
 PROTECTED_KINDS = "0,1,2,3,4,5,6,8,9,10,12,13,20,21,22,23,24"
